@@ -1,12 +1,738 @@
-//! Extension module (Tier A): owner fills in. Output: coq/gen/ExtractFns.v
+//! Extension module (Tier A, C07). Output: coq/gen/ExtractFns.v
 //! Contract: return (text of the .v file, report lines). Each report line is one JSON object
 //! {"item":"ExtractFns.<name>","file":"<rust file>","ok":true|false[,"error":"..."]}.
 //! Fail closed: when a site is not recognised, OMIT the Gallina definition (so dependent proofs stop
 //! compiling) and push an ok:false report line.
+//!
+//! Regenerated from /repo/src/extract.rs (the arithmetic the default extractor really uses):
+//!   * `cost_identity`, `cost_unit`, `cost_combine`  <- `macro_rules! cost_impl_int` (the `impl Cost for
+//!     $cost` body, instantiated at `u64` = `DefaultCost`; the invocation must list `u64`);
+//!   * `tac_fold`                 <- `impl CostModel<DefaultCost> for TreeAdditiveCostModel { fn fold }`;
+//!   * `container_cost_default`   <- default method `CostModel::container_cost`;
+//!   * `base_value_cost_default`  <- default method `CostModel::base_value_cost`;
+//!   * `relax_vacant_updates`, `relax_improves` <- the `match … entry(*target)` inside the closure
+//!     `relax_hyperedge` of `Extractor::bellman_ford` (Vacant arm sets `updated`; the comparison of
+//!     the Occupied arm, operator and operands);
+//!   * `parent_cost_matches`, `rank_guard`, `parent_first_wins` <- the closure `save_best_parent_edge`
+//!     (the `Some(best_cost.clone()) == compute_cost_hyperedge(..)` test, the comparison between
+//!     `target_topo_rnk` and `compute_topo_rnk_hyperedge(..)`, insertion only into a Vacant entry);
+//!   * `rank_init`, `rank_combine`, `rank_prim` <- `compute_topo_rnk_hyperedge` / `compute_topo_rnk_node`
+//!     (`fold(0, |ret, ..| usize::max(ret, ..))` in both, `0` for primitives).
+//! Expression subset: identifiers bound by the signature / closure, integer literals, `&e`, `*e`,
+//! `(e)`, `e.clone()`, `a.combine(b)`, `a.saturating_add(b)`, `a.wrapping_add(b)`, `a + b`,
+//! `a.max(b)`, `a.min(b)`, `T::identity()`, `T::unit()`, `usize::max(a, b)`,
+//! `xs.iter().fold(init, |s, c| body)`.  Everything else is an error for that item.
+use quote::ToTokens;
+use std::path::Path;
+use syn::{BinOp, Expr, ImplItem, Item, Pat, Stmt, TraitItem};
 
-pub fn generate(_repo: &std::path::Path) -> (String, Vec<String>) {
-    (
-        "(* GENERATED by /verif/translator (x_extract.rs): nothing extracted yet *)\n".to_string(),
-        Vec::new(),
-    )
+type R<T> = Result<T, String>;
+const FILE: &str = "src/extract.rs";
+
+fn norm<T: ToTokens>(t: &T) -> String {
+    t.to_token_stream().to_string().chars().filter(|c| !c.is_whitespace()).collect()
+}
+
+fn jesc(s: &str) -> String {
+    s.replace('\\', "\\\\").replace('"', "\\\"").replace('\n', " ")
+}
+
+// ------------------------------------------------------------------------------ expressions
+
+#[derive(Clone, Copy, PartialEq)]
+enum Ty {
+    Cost,
+    Rank,
+}
+
+struct Env {
+    vars: Vec<(String, String)>,
+    ty: Ty,
+}
+
+impl Env {
+    fn get(&self, n: &str) -> Option<&str> {
+        self.vars.iter().rev().find(|(k, _)| k == n).map(|(_, v)| v.as_str())
+    }
+}
+
+fn strip(e: &Expr) -> &Expr {
+    match e {
+        Expr::Paren(p) => strip(&p.expr),
+        Expr::Group(g) => strip(&g.expr),
+        Expr::Reference(r) => strip(&r.expr),
+        Expr::Unary(u) if matches!(u.op, syn::UnOp::Deref(_)) => strip(&u.expr),
+        Expr::MethodCall(m) if m.method == "clone" && m.args.is_empty() => strip(&m.receiver),
+        _ => e,
+    }
+}
+
+fn tr(e: &Expr, env: &Env) -> R<String> {
+    let e = strip(e);
+    match e {
+        Expr::Path(p) if p.path.segments.len() == 1 => {
+            let n = p.path.segments[0].ident.to_string();
+            env.get(&n).map(|s| s.to_string()).ok_or_else(|| format!("unbound name `{n}`"))
+        }
+        Expr::Lit(l) => match &l.lit {
+            syn::Lit::Int(i) => Ok(match env.ty {
+                Ty::Cost => format!("{}%N", i.base10_digits()),
+                Ty::Rank => format!("{}%nat", i.base10_digits()),
+            }),
+            _ => Err("unsupported literal".into()),
+        },
+        Expr::Call(c) => {
+            let f = norm(&c.func);
+            let last = f.rsplit("::").next().unwrap_or("").to_string();
+            if c.args.is_empty() && last == "identity" && env.ty == Ty::Cost {
+                Ok("cost_identity".into())
+            } else if c.args.is_empty() && last == "unit" && env.ty == Ty::Cost {
+                Ok("cost_unit".into())
+            } else if f == "usize::max" && c.args.len() == 2 && env.ty == Ty::Rank {
+                Ok(format!("(Nat.max {} {})", tr(&c.args[0], env)?, tr(&c.args[1], env)?))
+            } else if f == "usize::min" && c.args.len() == 2 && env.ty == Ty::Rank {
+                Ok(format!("(Nat.min {} {})", tr(&c.args[0], env)?, tr(&c.args[1], env)?))
+            } else {
+                Err(format!("unsupported call `{f}`"))
+            }
+        }
+        Expr::Binary(b) if matches!(b.op, BinOp::Add(_)) && env.ty == Ty::Cost => {
+            Ok(format!("({} + {})%N", tr(&b.left, env)?, tr(&b.right, env)?))
+        }
+        Expr::MethodCall(m) => {
+            let name = m.method.to_string();
+            // xs.iter().fold(init, |s, c| body)
+            if name == "fold" && m.args.len() == 2 {
+                let recv = match strip(&m.receiver) {
+                    Expr::MethodCall(i) if i.method == "iter" && i.args.is_empty() => tr(&i.receiver, env)?,
+                    _ => return Err("fold over something that is not `<slice>.iter()`".into()),
+                };
+                let init = tr(&m.args[0], env)?;
+                let cl = match strip(&m.args[1]) {
+                    Expr::Closure(c) => c,
+                    _ => return Err("fold step is not a closure".into()),
+                };
+                if cl.inputs.len() != 2 {
+                    return Err("fold closure must take two parameters".into());
+                }
+                let mut names = Vec::new();
+                for p in cl.inputs.iter() {
+                    match p {
+                        Pat::Ident(pi) if pi.by_ref.is_none() && pi.subpat.is_none() => names.push(pi.ident.to_string()),
+                        _ => return Err("fold closure parameter is not a plain identifier".into()),
+                    }
+                }
+                let mut vars = env.vars.clone();
+                for n in &names {
+                    vars.push((n.clone(), format!("{n}_")));
+                }
+                let body = tr(&cl.body, &Env { vars, ty: env.ty })?;
+                return Ok(format!("(fold_left (fun {}_ {}_ => {}) {} {})", names[0], names[1], body, recv, init));
+            }
+            if m.args.len() != 1 {
+                return Err(format!("unsupported method `{name}`"));
+            }
+            let a = tr(&m.receiver, env)?;
+            let b = tr(&m.args[0], env)?;
+            match (name.as_str(), env.ty) {
+                ("combine", Ty::Cost) => Ok(format!("(cost_combine {a} {b})")),
+                ("saturating_add", Ty::Cost) => Ok(format!("(N.min ({a} + {b}) u64_max)")),
+                ("wrapping_add", Ty::Cost) => Ok(format!("(N.modulo ({a} + {b}) (N.succ u64_max))")),
+                ("max", Ty::Cost) => Ok(format!("(N.max {a} {b})")),
+                ("min", Ty::Cost) => Ok(format!("(N.min {a} {b})")),
+                ("max", Ty::Rank) => Ok(format!("(Nat.max {a} {b})")),
+                ("min", Ty::Rank) => Ok(format!("(Nat.min {a} {b})")),
+                _ => Err(format!("unsupported method `{name}`")),
+            }
+        }
+        other => Err(format!("unsupported expression `{}`", norm(other))),
+    }
+}
+
+/// body of a method: optional `let _x = y;` no-op statements, then one tail expression
+fn tail_expr(block: &syn::Block) -> R<&Expr> {
+    let n = block.stmts.len();
+    for (i, s) in block.stmts.iter().enumerate() {
+        match s {
+            Stmt::Expr(e, None) if i + 1 == n => return Ok(e),
+            Stmt::Local(l) => {
+                let ok = matches!(&l.pat, Pat::Ident(pi) if pi.ident.to_string().starts_with('_'))
+                    && l.init.as_ref().map_or(false, |init| init.diverge.is_none() && matches!(&*init.expr, Expr::Path(_)));
+                if !ok {
+                    return Err(format!("unsupported statement `{}`", norm(s)));
+                }
+            }
+            _ => return Err(format!("unsupported statement `{}`", norm(s))),
+        }
+    }
+    Err("no tail expression".into())
+}
+
+/// parameters of a signature that carry costs: `&[C]` -> list N, `C` / `DefaultCost` -> N
+fn cost_params(sig: &syn::Signature) -> Vec<(String, String)> {
+    let mut v = Vec::new();
+    for a in sig.inputs.iter() {
+        if let syn::FnArg::Typed(pt) = a {
+            if let Pat::Ident(pi) = &*pt.pat {
+                let t = norm(&pt.ty);
+                let coq = match t.as_str() {
+                    "&[C]" | "&[DefaultCost]" | "&[u64]" => "list N",
+                    "C" | "DefaultCost" | "u64" => "N",
+                    _ => continue,
+                };
+                v.push((pi.ident.to_string(), coq.to_string()));
+            }
+        }
+    }
+    v
+}
+
+fn def_from_method(name: &str, sig: &syn::Signature, block: &syn::Block) -> R<String> {
+    let params = cost_params(sig);
+    let env = Env { vars: params.iter().map(|(n, _)| (n.clone(), n.clone())).collect(), ty: Ty::Cost };
+    let body = tr(tail_expr(block)?, &env)?;
+    let ps: Vec<String> = params.iter().map(|(n, t)| format!("({n} : {t})")).collect();
+    Ok(format!("Definition {name} {} : N :=\n  {body}.\n", ps.join(" ")))
+}
+
+// ------------------------------------------------------------------------------ macro body
+
+fn subst_dollar(ts: proc_macro2::TokenStream, var: &str, with: &str) -> proc_macro2::TokenStream {
+    use proc_macro2::{Group, Ident, Span, TokenTree};
+    let toks: Vec<TokenTree> = ts.into_iter().collect();
+    let mut out: Vec<TokenTree> = Vec::new();
+    let mut i = 0;
+    while i < toks.len() {
+        match (&toks[i], toks.get(i + 1)) {
+            (TokenTree::Punct(p), Some(TokenTree::Ident(id))) if p.as_char() == '$' && id == var => {
+                out.push(TokenTree::Ident(Ident::new(with, Span::call_site())));
+                i += 2;
+            }
+            (TokenTree::Group(g), _) => {
+                out.push(TokenTree::Group(Group::new(g.delimiter(), subst_dollar(g.stream(), var, with))));
+                i += 1;
+            }
+            (t, _) => {
+                out.push(t.clone());
+                i += 1;
+            }
+        }
+    }
+    out.into_iter().collect()
+}
+
+/// `macro_rules! cost_impl_int { ($($cost:ty),*) => {$( impl Cost for $cost {..} )*}; }` -> the impl at u64
+fn cost_impl_u64(file: &syn::File) -> R<syn::ItemImpl> {
+    use proc_macro2::{Delimiter, TokenTree};
+    let mac = file
+        .items
+        .iter()
+        .find_map(|it| match it {
+            Item::Macro(m) if m.ident.as_ref().map_or(false, |i| i == "cost_impl_int") => Some(m),
+            _ => None,
+        })
+        .ok_or("macro_rules! cost_impl_int not found")?;
+    let toks: Vec<TokenTree> = mac.mac.tokens.clone().into_iter().collect();
+    // exactly one rule: (matcher) => { transcriber } ;
+    let braces: Vec<&proc_macro2::Group> = toks
+        .iter()
+        .filter_map(|t| match t {
+            TokenTree::Group(g) if g.delimiter() == Delimiter::Brace => Some(g),
+            _ => None,
+        })
+        .collect();
+    if braces.len() != 1 {
+        return Err("cost_impl_int: expected exactly one rule with a `{..}` transcriber".into());
+    }
+    let matcher = toks
+        .iter()
+        .find_map(|t| match t {
+            TokenTree::Group(g) if g.delimiter() == Delimiter::Parenthesis => Some(norm(&g.stream())),
+            _ => None,
+        })
+        .unwrap_or_default();
+    if matcher != "$($cost:ty),*" {
+        return Err(format!("cost_impl_int: unexpected matcher `{matcher}`"));
+    }
+    let body: Vec<TokenTree> = braces[0].stream().into_iter().collect();
+    // $( impl .. )*
+    if body.len() != 3 || !matches!(&body[0], TokenTree::Punct(p) if p.as_char() == '$') || !matches!(&body[2], TokenTree::Punct(p) if p.as_char() == '*') {
+        return Err("cost_impl_int: transcriber is not a single `$( .. )*` repetition".into());
+    }
+    let inner = match &body[1] {
+        TokenTree::Group(g) if g.delimiter() == Delimiter::Parenthesis => g.stream(),
+        _ => return Err("cost_impl_int: transcriber is not a single `$( .. )*` repetition".into()),
+    };
+    let inst = subst_dollar(inner, "cost", "u64");
+    let imp: syn::ItemImpl = syn::parse2(inst).map_err(|e| format!("cost_impl_int body does not parse as an impl: {e}"))?;
+    let tr_name = imp.trait_.as_ref().map(|(_, p, _)| norm(p)).unwrap_or_default();
+    if tr_name != "Cost" || norm(&imp.self_ty) != "u64" {
+        return Err("cost_impl_int body is not `impl Cost for $cost`".into());
+    }
+    // the invocation must instantiate u64, and DefaultCost must be u64
+    let invoked = file.items.iter().any(|it| match it {
+        Item::Macro(m) if m.ident.is_none() && norm(&m.mac.path) == "cost_impl_int" => {
+            m.mac.tokens.clone().into_iter().any(|t| matches!(&t, TokenTree::Ident(i) if i == "u64"))
+        }
+        _ => false,
+    });
+    if !invoked {
+        return Err("no `cost_impl_int!(.. u64 ..)` invocation".into());
+    }
+    let dc = file.items.iter().any(|it| matches!(it, Item::Type(t) if t.ident == "DefaultCost" && norm(&t.ty) == "u64"));
+    if !dc {
+        return Err("`pub type DefaultCost = u64;` not found".into());
+    }
+    // no other `impl Cost for u64`
+    Ok(imp)
+}
+
+fn impl_method<'a>(imp: &'a syn::ItemImpl, name: &str) -> R<&'a syn::ImplItemFn> {
+    imp.items
+        .iter()
+        .find_map(|i| match i {
+            ImplItem::Fn(f) if f.sig.ident == name => Some(f),
+            _ => None,
+        })
+        .ok_or_else(|| format!("method `{name}` not found"))
+}
+
+// ------------------------------------------------------------------------------ closures of bellman_ford
+
+fn find_closure<'a>(block: &'a syn::Block, name: &str) -> Option<&'a syn::ExprClosure> {
+    struct V<'a> {
+        name: String,
+        found: Option<&'a syn::ExprClosure>,
+    }
+    impl<'a> syn::visit::Visit<'a> for V<'a> {
+        fn visit_local(&mut self, l: &'a syn::Local) {
+            if let (Pat::Ident(pi), Some(init)) = (&l.pat, &l.init) {
+                if pi.ident == self.name.as_str() {
+                    if let Expr::Closure(c) = &*init.expr {
+                        if self.found.is_none() {
+                            self.found = Some(c);
+                        }
+                    }
+                }
+            }
+            syn::visit::visit_local(self, l);
+        }
+    }
+    let mut v = V { name: name.to_string(), found: None };
+    syn::visit::Visit::visit_block(&mut v, block);
+    v.found
+}
+
+fn collect_exprs<'a>(e: &'a Expr, pred: &dyn Fn(&Expr) -> bool, out: &mut Vec<&'a Expr>) {
+    struct V<'a, 'p> {
+        pred: &'p dyn Fn(&Expr) -> bool,
+        out: Vec<&'a Expr>,
+    }
+    impl<'a, 'p> syn::visit::Visit<'a> for V<'a, 'p> {
+        fn visit_expr(&mut self, e: &'a Expr) {
+            if (self.pred)(e) {
+                self.out.push(e);
+            }
+            syn::visit::visit_expr(self, e);
+        }
+    }
+    let mut v = V { pred, out: Vec::new() };
+    syn::visit::Visit::visit_expr(&mut v, e);
+    out.append(&mut v.out);
+}
+
+fn sets_updated(stmts: &[Stmt]) -> bool {
+    stmts.iter().any(|s| norm(s) == "updated=true;")
+}
+
+fn cmp_def(op: &BinOp, l: &str, r: &str, nat: bool) -> R<String> {
+    let (ltb, leb, eqb) = if nat { ("Nat.ltb", "Nat.leb", "Nat.eqb") } else { ("N.ltb", "N.leb", "N.eqb") };
+    Ok(match op {
+        BinOp::Lt(_) => format!("{ltb} {l} {r}"),
+        BinOp::Le(_) => format!("{leb} {l} {r}"),
+        BinOp::Gt(_) => format!("{ltb} {r} {l}"),
+        BinOp::Ge(_) => format!("{leb} {r} {l}"),
+        BinOp::Eq(_) => format!("{eqb} {l} {r}"),
+        BinOp::Ne(_) => format!("negb ({eqb} {l} {r})"),
+        _ => return Err("not a comparison operator".into()),
+    })
+}
+
+/// the relaxation test: (relax_vacant_updates, relax_improves)
+fn relax_defs(bf: &syn::ImplItemFn) -> R<String> {
+    let cl = find_closure(&bf.block, "relax_hyperedge").ok_or("closure `relax_hyperedge` not found")?;
+    let mut ms = Vec::new();
+    collect_exprs(
+        &cl.body,
+        &|e| match e {
+            Expr::Match(m) => m.arms.iter().any(|a| norm(&a.pat).starts_with("HEntry::")),
+            _ => false,
+        },
+        &mut ms,
+    );
+    if ms.len() != 1 {
+        return Err(format!("expected exactly one `match .. {{ HEntry::.. }}` in relax_hyperedge, found {}", ms.len()));
+    }
+    let m = match ms[0] {
+        Expr::Match(m) => m,
+        _ => unreachable!(),
+    };
+    if !norm(&m.expr).ends_with(".entry(*target)") || !norm(&m.expr).contains("self.costs") {
+        return Err("the match scrutinee is not `self.costs…entry(*target)`".into());
+    }
+    if m.arms.len() != 2 {
+        return Err("expected the two arms Vacant / Occupied".into());
+    }
+    let mut vacant = None;
+    let mut improves = None;
+    for a in &m.arms {
+        if a.guard.is_some() {
+            return Err("match arm with a guard".into());
+        }
+        let stmts = match &*a.body {
+            Expr::Block(b) => &b.block.stmts,
+            _ => return Err("match arm body is not a block".into()),
+        };
+        let p = norm(&a.pat);
+        if p == "HEntry::Vacant(e)" {
+            let ins = stmts.iter().any(|s| norm(s) == "e.insert(new_cost);");
+            if !ins {
+                return Err("Vacant arm does not insert new_cost".into());
+            }
+            vacant = Some(sets_updated(stmts));
+        } else if p == "HEntry::Occupied(mute)" {
+            if stmts.len() != 1 {
+                return Err("Occupied arm is not a single `if`".into());
+            }
+            let iff = match &stmts[0] {
+                Stmt::Expr(Expr::If(i), _) => i,
+                _ => return Err("Occupied arm is not a single `if`".into()),
+            };
+            if iff.else_branch.is_some() {
+                return Err("Occupied arm: `if` with else".into());
+            }
+            if !sets_updated(&iff.then_branch.stmts) || !iff.then_branch.stmts.iter().any(|s| norm(s) == "e.insert(new_cost);") {
+                return Err("Occupied arm: then-branch does not set `updated` and insert new_cost".into());
+            }
+            let b = match strip(&iff.cond) {
+                Expr::Binary(b) => b,
+                _ => return Err("Occupied arm: condition is not a comparison".into()),
+            };
+            let role = |e: &Expr| -> R<&'static str> {
+                match norm(e).as_str() {
+                    "new_cost" => Ok("new_cost"),
+                    "*(e.get())" | "*e.get()" => Ok("old_cost"),
+                    o => Err(format!("Occupied arm: unexpected operand `{o}`")),
+                }
+            };
+            let (l, r) = (role(&b.left)?, role(&b.right)?);
+            if l == r {
+                return Err("Occupied arm: both operands are the same".into());
+            }
+            improves = Some(cmp_def(&b.op, l, r, false)?);
+        } else {
+            return Err(format!("unexpected arm pattern `{p}`"));
+        }
+    }
+    let vacant = vacant.ok_or("no Vacant arm")?;
+    let improves = improves.ok_or("no Occupied arm")?;
+    // the stamp: `if updated { ensure_fixpoint = false; self.topo_rnk_cnt += 1; …insert(*target, self.topo_rnk_cnt) }`
+    let body = norm(&cl.body);
+    if !body.contains("ifupdated{ensure_fixpoint=false;self.topo_rnk_cnt+=1;") || !body.contains(".insert(*target,self.topo_rnk_cnt);") {
+        return Err("the `if updated { ensure_fixpoint = false; self.topo_rnk_cnt += 1; … }` stamp was not recognised".into());
+    }
+    Ok(format!(
+        "(* Vacant arm: a class without cost takes the new cost and counts as an update *)\nDefinition relax_vacant_updates : bool := {}.\n(* Occupied arm: the condition of `if <cond> {{ updated = true; e.insert(new_cost); }}`{} *)\nDefinition relax_improves (new_cost old_cost : N) : bool :=\n  {}.\n",
+        vacant,
+        "",
+        improves
+    ))
+}
+
+/// save_best_parent_edge: (parent_cost_matches, rank_guard, parent_first_wins)
+fn parent_defs(bf: &syn::ImplItemFn) -> R<String> {
+    let cl = find_closure(&bf.block, "save_best_parent_edge").ok_or("closure `save_best_parent_edge` not found")?;
+    let mut ifs = Vec::new();
+    collect_exprs(&cl.body, &|e| matches!(e, Expr::If(_)), &mut ifs);
+    // rank guard
+    let mut guard = None;
+    let mut cost_eq = None;
+    let mut first_wins = false;
+    for i in &ifs {
+        let i = match i {
+            Expr::If(i) => i,
+            _ => unreachable!(),
+        };
+        let c = norm(&i.cond);
+        if c.contains("target_topo_rnk") {
+            let b = match strip(&i.cond) {
+                Expr::Binary(b) => b,
+                _ => return Err("rank guard is not a comparison".into()),
+            };
+            let role = |e: &Expr| -> R<&'static str> {
+                let n = norm(e);
+                if n == "target_topo_rnk" {
+                    Ok("target_rnk")
+                } else if n == "self.compute_topo_rnk_hyperedge(egraph,&row,func)" {
+                    Ok("edge_rnk")
+                } else {
+                    Err(format!("rank guard: unexpected operand `{n}`"))
+                }
+            };
+            let (l, r) = (role(&b.left)?, role(&b.right)?);
+            if l == r || guard.is_some() || i.else_branch.is_some() {
+                return Err("rank guard: unexpected shape".into());
+            }
+            guard = Some(cmp_def(&b.op, l, r, true)?);
+        } else if c.contains("compute_cost_hyperedge") {
+            // `let Some(best_cost) = self.costs…get(target) && Some(best_cost.clone()) == self.compute_cost_hyperedge(..)`
+            let b = match &*i.cond {
+                Expr::Binary(b) if matches!(b.op, BinOp::And(_)) => b,
+                _ => return Err("cost test is not `let Some(best_cost) = .. && ..`".into()),
+            };
+            let l = norm(&b.left);
+            if !(l.starts_with("letSome(best_cost)=self.costs.get(") && l.ends_with(".get(target)")) {
+                return Err(format!("cost test: unexpected binding `{l}`"));
+            }
+            let eq = match strip(&b.right) {
+                Expr::Binary(e) => e,
+                _ => return Err("cost test: right conjunct is not a comparison".into()),
+            };
+            if !matches!(eq.op, BinOp::Eq(_)) {
+                return Err("cost test: operator is not `==`".into());
+            }
+            let sides = [norm(&eq.left), norm(&eq.right)];
+            let a = "Some(best_cost.clone())";
+            let bb = "self.compute_cost_hyperedge(egraph,&row,func)";
+            if !((sides[0] == a && sides[1] == bb) || (sides[0] == bb && sides[1] == a)) || cost_eq.is_some() || i.else_branch.is_some() {
+                return Err(format!("cost test: unexpected operands `{}` / `{}`", sides[0], sides[1]));
+            }
+            cost_eq = Some(());
+        } else if c.starts_with("letHEntry::Vacant(e)=self.parent_edge") && c.ends_with(".entry(*target)") {
+            if i.else_branch.is_none() && norm(&i.then_branch).contains("e.insert((func.decl.name.clone(),row.vals.to_vec()))") {
+                first_wins = true;
+            }
+        } else if c != "!row.subsumed" {
+            return Err(format!("save_best_parent_edge: unrecognised condition `{c}`"));
+        }
+    }
+    let guard = guard.ok_or("rank guard not found")?;
+    cost_eq.ok_or("cost test not found")?;
+    if !first_wins {
+        return Err("`if let HEntry::Vacant(e) = self.parent_edge…entry(*target) { e.insert(..) }` not found".into());
+    }
+    Ok(format!(
+        "(* `Some(best_cost.clone()) == self.compute_cost_hyperedge(..)` *)\nDefinition parent_cost_matches (best_cost : N) (edge_cost : option N) : bool :=\n  match edge_cost with Some c => N.eqb best_cost c | None => false end.\n(* the comparison between `target_topo_rnk` and `compute_topo_rnk_hyperedge(..)` *)\nDefinition rank_guard (target_rnk edge_rnk : nat) : bool :=\n  {guard}.\n(* the edge is inserted only into a Vacant entry: the first qualifying row in scan order wins *)\nDefinition parent_first_wins : bool := true.\n"
+    ))
+}
+
+/// compute_topo_rnk_hyperedge / compute_topo_rnk_node: fold(0, |ret, ..| usize::max(ret, <rank of child>)), primitives 0
+fn rank_defs(imp: &syn::ItemImpl) -> R<String> {
+    let he = impl_method(imp, "compute_topo_rnk_hyperedge")?;
+    let nd = impl_method(imp, "compute_topo_rnk_node")?;
+    let mut out = Vec::new();
+    for f in [he, nd] {
+        let mut folds = Vec::new();
+        for s in &f.block.stmts {
+            if let Stmt::Expr(e, _) = s {
+                collect_exprs(e, &|e| matches!(e, Expr::MethodCall(m) if m.method == "fold"), &mut folds);
+            }
+        }
+        if folds.len() != 1 {
+            return Err(format!("{}: expected one fold", f.sig.ident));
+        }
+        let m = match folds[0] {
+            Expr::MethodCall(m) => m,
+            _ => unreachable!(),
+        };
+        if m.args.len() != 2 {
+            return Err("fold arity".into());
+        }
+        let init = norm(&m.args[0]);
+        let cl = match &m.args[1] {
+            Expr::Closure(c) => c,
+            _ => return Err("fold step is not a closure".into()),
+        };
+        let first = cl.inputs.first().map(norm).unwrap_or_default();
+        let body = match strip(&cl.body) {
+            Expr::Block(b) if b.block.stmts.len() == 1 => match &b.block.stmts[0] {
+                Stmt::Expr(e, None) => e.clone(),
+                _ => return Err("fold body".into()),
+            },
+            e => e.clone(),
+        };
+        let c = match &body {
+            Expr::Call(c) => c,
+            _ => return Err(format!("{}: fold body is not a call", f.sig.ident)),
+        };
+        let fname = norm(&c.func);
+        if c.args.len() != 2 || norm(&c.args[0]) != first || !norm(&c.args[1]).starts_with("self.compute_topo_rnk_node(egraph,*value,sort)") {
+            return Err(format!("{}: fold body is not `f(ret, self.compute_topo_rnk_node(egraph, *value, sort))`", f.sig.ident));
+        }
+        out.push((init, fname));
+    }
+    if out[0] != out[1] {
+        return Err("hyperedge and container rank folds differ".into());
+    }
+    let init: u64 = out[0].0.parse().map_err(|_| format!("rank fold init `{}` is not a literal", out[0].0))?;
+    let comb = match out[0].1.as_str() {
+        "usize::max" => "Nat.max ret r",
+        "usize::min" => "Nat.min ret r",
+        o => return Err(format!("rank fold combines with `{o}`")),
+    };
+    // primitive branch of compute_topo_rnk_node: the final `else { <lit> }`
+    let tail = match nd.block.stmts.last() {
+        Some(Stmt::Expr(Expr::If(i), None)) => i,
+        _ => return Err("compute_topo_rnk_node: body is not an if-chain".into()),
+    };
+    if norm(&tail.cond) != "sort.is_container_sort()" {
+        return Err("compute_topo_rnk_node: first test is not is_container_sort".into());
+    }
+    let second = match tail.else_branch.as_ref().map(|(_, e)| &**e) {
+        Some(Expr::If(i)) if norm(&i.cond) == "sort.is_eq_sort()" => i,
+        _ => return Err("compute_topo_rnk_node: second test is not is_eq_sort".into()),
+    };
+    let prim = match second.else_branch.as_ref().map(|(_, e)| &**e) {
+        Some(Expr::Block(b)) => norm(&b.block).trim_matches(|c| c == '{' || c == '}').to_string(),
+        _ => return Err("compute_topo_rnk_node: no primitive branch".into()),
+    };
+    let prim: u64 = prim.parse().map_err(|_| format!("primitive rank `{prim}` is not a literal"))?;
+    Ok(format!(
+        "(* compute_topo_rnk_hyperedge / compute_topo_rnk_node (container): fold({init}, |ret, ..| {}(ret, rank of child)) *)\nDefinition rank_init : nat := {init}.\nDefinition rank_combine (ret r : nat) : nat := {comb}.\n(* rank of a primitive child *)\nDefinition rank_prim : nat := {prim}.\n",
+        out[0].1
+    ))
+}
+
+// ------------------------------------------------------------------------------ driver
+
+pub fn generate(repo: &Path) -> (String, Vec<String>) {
+    let mut text = String::from(
+        "(* GENERATED by /verif/translator (x_extract.rs) from /repo/src/extract.rs - do not edit *)\nFrom Coq Require Import List NArith Arith Bool.\nImport ListNotations.\n\nDefinition u64_max : N := 18446744073709551615%N.   (* u64::MAX *)\n\n",
+    );
+    let mut report = Vec::new();
+    let mut push = |name: &str, r: R<String>, text: &mut String| match r {
+        Ok(def) => {
+            text.push_str(&def);
+            text.push('\n');
+            report.push(format!("{{\"item\":\"ExtractFns.{name}\",\"file\":\"{FILE}\",\"ok\":true}}"));
+        }
+        Err(e) => {
+            text.push_str(&format!("(* ExtractFns.{name}: NOT REGENERATED: {} *)\n\n", e.replace("*)", "* )")));
+            report.push(format!("{{\"item\":\"ExtractFns.{name}\",\"file\":\"{FILE}\",\"ok\":false,\"error\":\"{}\"}}", jesc(&e)));
+        }
+    };
+    let names = ["cost_combine", "tac_fold", "container_cost_default", "base_value_cost_default", "relax_improves", "rank_guard", "rank_combine"];
+    let src = match std::fs::read_to_string(repo.join(FILE)) {
+        Ok(s) => s,
+        Err(e) => {
+            for n in names {
+                push(n, Err(format!("cannot read {FILE}: {e}")), &mut text);
+            }
+            return (text, report);
+        }
+    };
+    let file = match syn::parse_file(&src) {
+        Ok(f) => f,
+        Err(e) => {
+            for n in names {
+                push(n, Err(format!("{FILE} does not parse: {e}")), &mut text);
+            }
+            return (text, report);
+        }
+    };
+
+    // 1. Cost for u64
+    let combine = cost_impl_u64(&file).and_then(|imp| {
+        let lit = |name: &str| -> R<String> {
+            let f = impl_method(&imp, name)?;
+            if !f.sig.inputs.is_empty() {
+                return Err(format!("`{name}` takes parameters"));
+            }
+            tr(tail_expr(&f.block)?, &Env { vars: vec![], ty: Ty::Cost })
+        };
+        let id = lit("identity")?;
+        let un = lit("unit")?;
+        let c = impl_method(&imp, "combine")?;
+        let sig = norm(&c.sig.inputs);
+        if sig != "self,other:&Self" {
+            return Err(format!("combine: unexpected signature `{sig}`"));
+        }
+        let env = Env { vars: vec![("self".into(), "a".into()), ("other".into(), "b".into())], ty: Ty::Cost };
+        let body = tr(tail_expr(&c.block)?, &env)?;
+        Ok(format!(
+            "(* impl Cost for u64 (macro cost_impl_int) *)\nDefinition cost_identity : N := {id}.\nDefinition cost_unit : N := {un}.\nDefinition cost_combine (a b : N) : N :=\n  {body}.\n"
+        ))
+    });
+    push("cost_combine", combine, &mut text);
+
+    // 2. TreeAdditiveCostModel::fold
+    let fold = (|| -> R<String> {
+        let imp = file
+            .items
+            .iter()
+            .find_map(|it| match it {
+                Item::Impl(i)
+                    if norm(&i.self_ty) == "TreeAdditiveCostModel"
+                        && i.trait_.as_ref().map_or(false, |(_, p, _)| norm(p) == "CostModel<DefaultCost>") =>
+                {
+                    Some(i)
+                }
+                _ => None,
+            })
+            .ok_or("impl CostModel<DefaultCost> for TreeAdditiveCostModel not found")?;
+        let f = impl_method(imp, "fold")?;
+        let ps: Vec<String> = cost_params(&f.sig).into_iter().map(|(n, _)| n).collect();
+        if ps != ["children_cost", "head_cost"] {
+            return Err(format!("fold: unexpected cost parameters {ps:?}"));
+        }
+        // container_cost / base_value_cost must not be overridden here (the defaults are translated)
+        for i in &imp.items {
+            if let ImplItem::Fn(m) = i {
+                if m.sig.ident == "container_cost" || m.sig.ident == "base_value_cost" {
+                    return Err(format!("TreeAdditiveCostModel overrides `{}`", m.sig.ident));
+                }
+            }
+        }
+        // enode_cost = func.extraction_head_cost(egraph)
+        let ec = impl_method(imp, "enode_cost")?;
+        if norm(tail_expr(&ec.block)?) != "func.extraction_head_cost(egraph)" {
+            return Err("enode_cost is not `func.extraction_head_cost(egraph)`".into());
+        }
+        Ok(format!("(* TreeAdditiveCostModel::fold *)\n{}", def_from_method("tac_fold", &f.sig, &f.block)?))
+    })();
+    push("tac_fold", fold, &mut text);
+
+    // 3./4. defaults of trait CostModel
+    let tr_item = file.items.iter().find_map(|it| match it {
+        Item::Trait(t) if t.ident == "CostModel" => Some(t),
+        _ => None,
+    });
+    for (name, method) in [("container_cost_default", "container_cost"), ("base_value_cost_default", "base_value_cost")] {
+        let r = (|| -> R<String> {
+            let t = tr_item.ok_or("trait CostModel not found")?;
+            let f = t
+                .items
+                .iter()
+                .find_map(|i| match i {
+                    TraitItem::Fn(f) if f.sig.ident == method => Some(f),
+                    _ => None,
+                })
+                .ok_or_else(|| format!("CostModel::{method} not found"))?;
+            let b = f.default.as_ref().ok_or_else(|| format!("CostModel::{method} has no default body"))?;
+            Ok(format!("(* default CostModel::{method} *)\n{}", def_from_method(name, &f.sig, b)?))
+        })();
+        push(name, r, &mut text);
+    }
+
+    // 5.-7. Extractor::bellman_ford and the rank functions
+    let ext_impl = file.items.iter().find_map(|it| match it {
+        Item::Impl(i) if i.trait_.is_none() && norm(&i.self_ty) == "Extractor<C>" => Some(i),
+        _ => None,
+    });
+    let bf = ext_impl.ok_or_else(|| "impl Extractor<C> not found".to_string()).and_then(|i| impl_method(i, "bellman_ford"));
+    push("relax_improves", bf.clone().and_then(relax_defs), &mut text);
+    push("rank_guard", bf.and_then(parent_defs), &mut text);
+    push("rank_combine", ext_impl.ok_or_else(|| "impl Extractor<C> not found".to_string()).and_then(rank_defs), &mut text);
+
+    (text, report)
 }
